@@ -35,6 +35,8 @@ use vls_verif::{oracle, Cli, Report, Rng};
 #[derive(Clone, Copy, Debug, PartialEq, Eq)]
 enum Api {
     Direct,
+    /// direct API, phase-1 entry point (raw transaction + witness scripts)
+    Phase1,
     Handler(u32),
 }
 
@@ -407,7 +409,7 @@ impl Hist {
                 let id = self.chans[c].m.id0.clone();
                 let guess = SecretKey::from_slice(&rng.bytes::<32>()).unwrap_or(SecretKey::from_slice(&[1; 32]).unwrap());
                 match api {
-                    Api::Direct => {
+                    Api::Direct | Api::Phase1 => {
                         let (r, _) = self.world.request(|node| report::catch(|| node.with_channel_base(&id, |b| b.check_future_secret(n, &guess))));
                         Outcome::new(status_res(r).0)
                     }
@@ -632,6 +634,20 @@ impl Hist {
                 });
                 Outcome::new(status_res(r).0)
             }
+            Api::Phase1 => {
+                let (tx, wit) = match report::catch(|| m.holder_commitment_phase1(&self.secp, n_model, &cc)) {
+                    Ok(x) => x,
+                    Err(p) => return Outcome::new(Res::Err(format!("harness could not build the commitment: {}", p))),
+                };
+                let (r, _) = self.world.request(|node| {
+                    report::catch(|| {
+                        node.with_channel(&id, |ch| {
+                            ch.validate_holder_commitment_tx(&tx, &wit, n, cc.feerate_per_kw, cc.offered.clone(), cc.received.clone(), &sig, &hsigs)
+                        })
+                    })
+                });
+                Outcome::new(status_res(r).0)
+            }
             Api::Handler(v) => {
                 let h = make_channel_handler(&self.world.node, v, m.peer_id, m.dbid);
                 let hty = if m.setup.is_anchors() { EcdsaSighashType::SinglePlusAnyoneCanPay } else { EcdsaSighashType::All };
@@ -666,7 +682,7 @@ impl Hist {
     fn revoke(&mut self, c: usize, n: u64, api: Api) -> Outcome {
         let id = self.chans[c].m.id0.clone();
         match api {
-            Api::Direct => {
+            Api::Direct | Api::Phase1 => {
                 let (r, _) = self.world.request(|node| report::catch(|| node.with_channel(&id, |ch| ch.revoke_previous_holder_commitment(n))));
                 let (res, v) = status_res(r);
                 let mut o = Outcome::new(res);
@@ -694,7 +710,7 @@ impl Hist {
     fn get_point(&mut self, c: usize, n: u64, api: Api) -> Outcome {
         let id = self.chans[c].m.id0.clone();
         match api {
-            Api::Direct => {
+            Api::Direct | Api::Phase1 => {
                 let (r, _) = self.world.request(|node| report::catch(|| node.with_channel_base(&id, |b| b.get_per_commitment_point(n))));
                 Outcome::new(status_res(r).0)
             }
@@ -719,7 +735,7 @@ impl Hist {
     fn sign_holder(&mut self, c: usize, n: u64, api: Api) -> Outcome {
         let id = self.chans[c].m.id0.clone();
         match api {
-            Api::Direct => {
+            Api::Direct | Api::Phase1 => {
                 let (r, _) = self.world.request(|node| report::catch(|| node.with_channel(&id, |ch| ch.sign_holder_commitment_tx_phase2(n))));
                 let (res, v) = status_res(r);
                 let mut o = Outcome::new(res);
@@ -790,6 +806,22 @@ impl Hist {
                 });
                 status_res(r).0
             }
+            Api::Phase1 => {
+                let built = report::catch(|| self.chans[c].m.counterparty_commitment_phase1(&self.secp, n_model, &point, &cc));
+                match built {
+                    Err(p) => Res::Err(format!("harness could not build the commitment: {}", p)),
+                    Ok((tx, wit)) => {
+                        let (r, _) = self.world.request(|node| {
+                            report::catch(|| {
+                                node.with_channel(&id, |ch| {
+                                    ch.sign_counterparty_commitment_tx(&tx, &wit, &point, n, cc.feerate_per_kw, cc.received.clone(), cc.offered.clone())
+                                })
+                            })
+                        });
+                        status_res(r).0
+                    }
+                }
+            }
             Api::Handler(v) => {
                 let h = make_channel_handler(&self.world.node, v, self.chans[c].m.peer_id, self.chans[c].m.dbid);
                 let msg = Message::SignRemoteCommitmentTx2(msgs::SignRemoteCommitmentTx2 {
@@ -831,7 +863,7 @@ impl Hist {
         };
         let sk = SecretKey::from_slice(&secret).expect("secret");
         let res = match api {
-            Api::Direct => {
+            Api::Direct | Api::Phase1 => {
                 let (r, _) = self.world.request(|node| report::catch(|| node.with_channel(&id, |ch| ch.validate_counterparty_revocation(n, &sk))));
                 status_res(r).0
             }
@@ -870,7 +902,7 @@ impl Hist {
         let hs = if to_h > 0 { Some(holder_script.clone()) } else { None };
         let cs = if to_c > 0 { Some(cp_script.clone()) } else { None };
         let res = match api {
-            Api::Direct => {
+            Api::Direct | Api::Phase1 => {
                 let (r, _) = self.world.request(|node| report::catch(|| node.with_channel(&id, |ch| ch.sign_mutual_close_tx_phase2(to_h, to_c, &hs, &cs, &path))));
                 status_res(r).0
             }
@@ -897,8 +929,9 @@ impl Hist {
 // generation
 
 fn pick_api(rng: &mut Rng) -> Api {
-    match rng.below(6) {
+    match rng.below(7) {
         0 | 1 => Api::Direct,
+        6 => Api::Phase1,
         2 => Api::Handler(4),
         3 => Api::Handler(5),
         _ => Api::Handler(6),
@@ -1298,6 +1331,9 @@ fn run_history(rng: &mut Rng, r: &mut Report, cli: &Cli, prop: Prop, shard: usiz
         r.eval(1);
         let kind = op_kind(&op);
         r.count(&format!("op.{}.{}", kind, match &out.res { Res::Ok => "ok", Res::Err(_) => "err", Res::Panic(_) => "panic" }));
+        if matches!(op, Op::ValidateHolder { .. } | Op::SignCounterparty { .. }) {
+            r.count(&format!("api.{}.{}.{}", kind, op_api(&op), match &out.res { Res::Ok => "ok", Res::Err(_) => "err", Res::Panic(_) => "panic" }));
+        }
         h.log.push(json!([format!("{:?}", op), out.res.tag()]));
         if h.log.len() > 400 {
             h.log.drain(0..200);
